@@ -12,7 +12,7 @@ use super::{
     root::RustFile,
     util::{
         field_value_to_rust_type, parse_import, to_lower_snake_case, trustfall_type_to_rust_type,
-        type_edge_resolver_fn_name,
+        type_edge_resolver_fn_name, variant_conversion_fn_name,
     },
 };
 
@@ -148,7 +148,7 @@ fn make_edge_resolver_and_call(
     let variant_name = escaped_rust_name(upper_case_variant_name(type_name));
     let resolver_fn_name = escaped_rust_name(to_lower_snake_case(edge_name));
     let resolver_fn_ident = syn::Ident::new(&resolver_fn_name, proc_macro2::Span::call_site());
-    let conversion_fn_name = format!("as_{}", to_lower_snake_case(&variant_name));
+    let conversion_fn_name = variant_conversion_fn_name(&variant_name);
     let conversion_fn_ident = syn::Ident::new(&conversion_fn_name, proc_macro2::Span::call_site());
     let expect_msg = format!("conversion failed, vertex was not a {type_name}");
     let todo_msg = format!("get neighbors along edge '{edge_name}' for type '{type_name}'");
